@@ -22,7 +22,11 @@ META = {
             "sequence numbers straddle 2^8, 2^16, 2^24, 2^31, 0xFF000000 and the 2^32 wrap. Oracle: exactly "
             "one UNIMPLEMENTED reply whose body is exactly the uint32 sequence number of the offending packet "
             "(none for type 3), transport still active, a begun re-exchange completes, global-request round trip "
-            "and channel data still work.",
+            "and channel data still work. Judgement point of the reply [dimension 'the peer contributes nothing "
+            "further']: in every state the replies must be on the wire at the victim's quiescence after the "
+            "offending packets, i.e. inside the re-exchange window too - before the peer's KEXINIT arrives and "
+            "ahead of the victim's NEWKEYS, in the numbering epoch of the packet they quote (after NEWKEYS strict "
+            "kex restarts the counters, the quoted number would name another packet).",
     "note": "peer is a real paramiko Transport emitting the packet through its packetizer; default cipher suite; "
             "strict-kex sequence numbering (reset after NEWKEYS) is what the sender's trace records; the link is "
             "aged by fast-forwarding the sender's outbound and the victim's inbound packet counter to the same "
@@ -34,7 +38,7 @@ META = {
 }
 
 ROLES = ("client", "server")
-STATES = ("idle", "chan", "rekey")
+STATES = ("idle", "chan", "rekey", "rekeyed")
 # sequence-number dimension: the chained packets straddle each of these boundaries of the 32-bit counter
 SEQ_BOUNDARIES = (("2^8", 1 << 8), ("2^16", 1 << 16), ("2^24", 1 << 24), ("2^31", 1 << 31),
                   ("0xFF000000", 0xFF000000), ("2^32-wrap", 1 << 32))
@@ -77,13 +81,20 @@ def execute(role, state, sends, age=None):
         srv = F.ScriptedServer(global_request=True)
         p = F.Pair(server=srv, packetizer=TolerantPacketizer).up()
         c = sc = None
-        if state in ("chan", "rekey"):
+        if state in ("chan", "rekey", "rekeyed"):
             c, sc = p.session()
             c.settimeout(3.0)
             sc.settimeout(3.0)
         victim, peer, pside = (p.tc, p.ts, "s") if role == "client" else (p.ts, p.tc, "c")
         v2p = p.c2s if role == "client" else p.s2c
         s.quiesce()
+        if state == "rekeyed":
+            # a complete re-exchange, begun by the peer, lies between the handshake and the offending packet
+            h0 = victim.H
+            peer.renegotiate_keys()
+            s.quiesce()
+            out["rekeyed"] = bool(victim.H != h0 and victim.session_id == h0 and not victim.in_kex
+                                  and victim.clear_to_send.is_set() and peer.clear_to_send.is_set())
         if age is not None:
             # the peer->victim direction is idle: fast-forward both ends of it to the same packet counter
             if getattr(peer.packetizer, SEQ_ATTR_OUT) != getattr(victim.packetizer, SEQ_ATTR_IN):
@@ -122,6 +133,9 @@ def execute(role, state, sends, age=None):
             seqs.append(CF.last_tx_seq(p.glog, pside))
             s.quiesce()
         out["seqs"] = seqs
+        # judgement point: the victim is quiescent and the peer has contributed nothing but the offending
+        # packets (state rekey: the window is still open, the victim's KEXINIT still in flight)
+        out["replies_at_quiescence"] = [raw for t, raw in CF.sent_since(victim, m0) if t == MSG_UNIMPLEMENTED]
         if th is not None:
             out["in_rekey_window"] = out["in_rekey_window"] and not victim._expected_packet
             # the victim's KEXINIT (and its replies) reach the peer; the exchange runs to completion.
@@ -186,6 +200,18 @@ def judge(role, state, sends, o):
         v.append(("session-dead(%s@%s):%s" % (type(e).__name__ if e is not None else "no-exception", site, c),
                   {"exception": CF.exc_brief(e), "replies_seen": got, "wanted": want}))
         return v
+    early = [int.from_bytes(raw[1:5], "big") if len(raw) == 5 else -1 for raw in o.get("replies_at_quiescence", [])]
+    if got == want and early != want:
+        # every reply did come - but only after further input from the peer (its KEXINIT ... NEWKEYS)
+        sent_types = [t for t, _ in o["replies"]]
+        nk = sent_types.index(21) if 21 in sent_types else None
+        late = [i for i, t in enumerate(sent_types) if t == MSG_UNIMPLEMENTED][len(early):]
+        wanted_types = [t for t, _ in sends if t != MSG_UNIMPLEMENTED]
+        first_late = cls_of(wanted_types[min(len(early), len(wanted_types) - 1)])
+        v.append(("reply-withheld-until-re-exchange-completes:%s" % first_late,
+                  {"replies_at_victims_quiescence": len(early), "expected": len(want),
+                   "late_replies_follow_victims_NEWKEYS": bool(late and nk is not None and late[0] > nk),
+                   "victim_sent": sent_types[:12]}))
     if got != want:
         # keep the recorded detail small: a window around the first difference
         k = next((i for i, (x, y) in enumerate(zip(got, want)) if x != y), min(len(got), len(want)))
@@ -229,8 +255,12 @@ def run_cases(item, acc):
             for name, bnd in SEQ_BOUNDARIES:
                 if any((a < bnd <= b) if bnd < 1 << 32 else (b < a) for a, b in pairs):
                     acc.nt((role, state, "seq-boundary", name))
+        if state == "rekeyed" and o["outcome"] == "ok" and not o.get("rekeyed"):
+            raise RuntimeError("C12 harness: the re-exchange before the packet did not complete (%s)" % role)
         if state == "rekey":
             acc.count("executions_inside_re_exchange_window")
+        if state == "rekeyed":
+            acc.count("executions_after_completed_re_exchange")
         acc.count("executions")
         acc.count("packets_sent", len(sends))
         acc.count("unimplemented_replies_seen",
@@ -258,6 +288,8 @@ def probe(role, state):
         raise RuntimeError("C12 harness: honest session failed: %r" % (o,))
     if state == "rekey" and (o.get("rekey") != "ok" or not o.get("in_rekey_window")):
         raise RuntimeError("C12 harness: honest re-exchange failed: %r" % (o,))
+    if state == "rekeyed" and not o.get("rekeyed"):
+        raise RuntimeError("C12 harness: honest re-exchange before the packet failed: %r" % (o,))
     return o["unhandled"]
 
 
@@ -269,8 +301,8 @@ def cases(tier):
             u = probe(role, state)
             unh[(role, state)] = u
             pls = payloads(tier)
-            if state == "rekey" and tier == "quick":
-                pls = pls[2:]       # quick: one payload shape per type inside the re-exchange window
+            if state in ("rekey", "rekeyed") and tier == "quick":
+                pls = pls[2:]       # quick: one payload shape per type inside / after the re-exchange
             for t in u:
                 for label, pl in pls:
                     out.append((role, state, [(t, pl)], label, None))
@@ -297,18 +329,21 @@ def main(tier):
                     "case = (victim role, state, ptype without a live handler, payload shape); nontrivial = "
                     "distinct (role, state, ptype) whose packet was read by the victim's run loop (seen in "
                     "its receive trace) while no handler table had an entry for it (state rekey: while the victim "
-                    "was in_kex with clear_to_send cleared and expected no particular packet), plus distinct "
+                    "was in_kex with clear_to_send cleared and expected no particular packet; state rekeyed: "
+                    "after a re-exchange completed on both sides and the exchange hash moved away from the "
+                    "session id), plus distinct "
                     "(role, state, sequence-number boundary) straddled by the offending packets of an aged link",
                     ["peer = real paramiko Transport (authenticated) emitting the raw packet via _send_message",
                      "default algorithms (curve25519 / aes-ctr / hmac-sha2) with strict kex",
-                     "reaction judged at quiescence of both transports",
+                     "reaction judged at quiescence of both transports; the replies are additionally read at the "
+                     "victim's quiescence BEFORE the peer sends anything further (re-exchange window still open)",
                      "aged link = both ends' packet counters of the idle peer->victim direction fast-forwarded "
                      "consistently (equivalent to that many packets having been exchanged)",
                      "re-exchange state: the peer's reader skips UNIMPLEMENTED; virtual time covers the 30 s "
                      "clear_to_send timeout"])
     cs, unh = cases(tier)
     ck.extra["unhandled_types_per_state"] = {"%s/%s" % k: len(v) for k, v in unh.items()}
-    ck.extra["bound"] = ("ptype 0..255 x %d payload shapes x 2 roles x 3 states + chains + chains x %d "
+    ck.extra["bound"] = ("ptype 0..255 x %d payload shapes x 2 roles x 4 states + chains + chains x %d "
                          "sequence-number boundaries" % (len(payloads(tier)), len(SEQ_BOUNDARIES)))
     ck.merge(core.pmap(enum.chunks(cs, 64 if tier == "quick" else 128), run_cases))
     return ck.finish()
@@ -320,7 +355,9 @@ def replay(rec):
     o = execute(r["role"], r["state"], sends, r.get("age"))
     print("victim=%s state=%s first_seqno=%s ptypes=%s" % (r["role"], r["state"], r.get("age"),
                                                           [t for t, _ in sends][:12]))
-    print("re-exchange:", o.get("rekey"))
+    print("re-exchange:", o.get("rekey"), "completed before the packet:", o.get("rekeyed"))
+    print("replies on the wire at the victim's quiescence (no further peer input):",
+          [raw.hex() for raw in o.get("replies_at_quiescence", [])][:12])
     print("offending seqnos:", o.get("seqs"))
     print("victim sent afterwards:", [(t, raw.hex()) for t, raw in o.get("replies", [])][:12])
     print("active:", o.get("active"), "exception:", CF.exc_brief(o.get("exc")), "works:", o.get("works"))
